@@ -14,7 +14,8 @@
 //       line[pos..] (x3) and trimmed[start..], &trimmed[start..start + end] (char boundaries and ranges: proved from the find
 //       contracts), pos + close_pos, pos + .., open_pos + 1, pos + pattern.len(), start + end, depth += 1 / -= 1 (i32)
 //   C12 both `loop`s carry `decreases i`; the for loops range over finite iterators
-//       (op_usefx_ctx counts parentheses from the first `usefixtures(` of a line UNTIL the ')' that closes the call - a fold over
+//       (op_usefx_ctx searches `.usefixtures(` - the mark call with its dot, /repo 14e4153; the bare word no longer matches:
+//        lemma_C18_usefixtures_text_without_dot_is_none - and counts parentheses from its first occurrence on a line UNTIL the ')' that closes the call - a fold over
 //        PD { depth, closed } - as the source does since /repo 3031d33; before that fix the count ran to the end of the cursor line
 //        and the `def test_x(` typed below a closed decorator was answered UsefixturesDecorator: former FINDING, now the positive
 //        lemma_C18_closed_call_above_cursor_line_does_not_decide / .._closed_decorator_above_and_no_other_usefixtures_text_is_none)
